@@ -11,6 +11,8 @@ Oracle: Trio's own task.child_nurseries / nursery.child_tasks; for hop chains th
 """
 from __future__ import annotations
 
+import contextlib
+import io
 import itertools
 import threading
 import warnings
@@ -128,7 +130,7 @@ def run_tree(spec: Any, body_end: str, recurse: bool) -> Dict[str, Any]:
             top.start_soon(run_task, spec)
             await trio.testing.wait_all_tasks_blocked()
             root_task = reg[0][0]
-            with warnings.catch_warnings(record=True) as w:
+            with warnings.catch_warnings(record=True) as w, contextlib.redirect_stderr(io.StringIO()):
                 warnings.simplefilter("always")
                 try:
                     result["stack"] = stackscope.extract(root_task, recurse_child_tasks=recurse)
@@ -330,10 +332,9 @@ def hop_case(depth: int, observe_from: int) -> Optional[str]:
             return f"visible frames {vis} do not continue through {exp}"
     if vis.count("sync_level") != sum(1 for x in exp if x == "sync_level") or vis.count("async_level") != sum(1 for x in exp if x == "async_level"):
         return f"levels duplicated or missing: {vis} vs {exp}"
-    internals = [v for v in vis if v in ("run_sync", "_send_message_to_trio", "run", "unprotected_afn", "unprotected_fn", "worker_fn",
-                                         "_bootstrap", "_bootstrap_inner", "wait_task_rescheduled")]
-    if internals:
-        return f"bridging internals are visible: {internals}"
+    # nothing else may be visible between the levels: the visible series STARTS with exactly the levels
+    if vis[: len(exp)] != exp:
+        return f"bridging internals are visible between the levels: {vis} (expected to start with {exp})"
     return None
 
 
